@@ -155,10 +155,10 @@ def gen_cases(rec, rng, tier):
                 yield {'cls': 'eps_chain', 'ref': fag.eps_chain(k, back_edge=back, accept_end=(k % 3 != 0)), 'eps': rng.choice(['', 'ε']), 'container': rng.choice(conts), 'notebook': True}
     for R in fag.thompson_nfas(rng, 60 if thorough else 15):
         yield {'cls': 'thompson_nfa', 'ref': R, 'eps': rng.choice(['', '_', 'ε']), 'container': rng.choice(conts), 'notebook': rng.random() < 0.3}
-    for _ in range(500 if thorough else 120):
+    for _ in range(2000 if thorough else 120):
         n = rng.randint(1, 7)
         k = rng.randint(0, 3)
-        R = fag.random_nfa(rng, n, k, eps_density=rng.choice([0.0, 0.2, 0.6, 1.0]))
+        R = fag.maybe_digits(rng, fag.random_nfa(rng, n, k, eps_density=rng.choice([0.0, 0.2, 0.6, 1.0])))
         variants = [R] + [fag.random_renaming(rng, R) for _ in range(3)]
         for j, R1 in enumerate(variants):
             cont = rng.choice(conts)
